@@ -4,6 +4,7 @@ import MgModel.C20.Hex
 import MgModel.C20.Str
 import MgModel.C20.Num
 import MgModel.C20.Path
+import MgModel.C20.Float
 open MgModel MgModel.C20 MgModel.Driver
 
 /-! Driver for C20. Strings travel as hex tokens (`-` = empty string). Every op prints
@@ -229,10 +230,42 @@ def stepPath (st : St) : List String → Option (St × String)
     | _, _, _ => none
   | _ => none
 
+def showFRes : FRes → String
+  | .bits neg e m => s!"{showBool neg} {e} {m}"
+  | .inf neg _ => s!"{showBool neg} inf"
+  | .nan => "nan"
+
+def showOptFRes : Option FRes → String
+  | none => "0"
+  | some r => s!"1 {showFRes r}"
+
+def fmtOf (op : String) : Option (Fmt × Bool) :=
+  if op = "tof" ∨ op = "strtof" then some (fmt32, true)
+  else if op = "tod" ∨ op = "strtod" then some (fmt64, false)
+  else if op = "told" ∨ op = "strtold" then some (fmt80, false)
+  else none
+
+def stepFloat (st : St) : List String → Option String
+  | [op, s] =>
+    match fmtOf op, unhexC s with
+    | some (f, isF), some s =>
+      if op.startsWith "strto" then
+        let sc := strtodScan s
+        let r := roundFloat f sc.val
+        let er := match r with | .inf _ true => "1" | _ => "0"
+        some s!"{sc.consumed} {showFRes r} {er}"
+      else
+        let m := if st.fx then strToFloat f s else strToFloatOrig isF f s
+        some (withSpec (showOptFRes m) (showOptFRes (refParseFloat f s)))
+    | _, _ => none
+  | _ => none
+
 def stepAll (st : St) (toks : List String) : St × String :=
   match stepPath st toks with
   | some r => r
   | none =>
-    stepLine st toks
+    match stepFloat st toks with
+    | some o => (st, o)
+    | none => stepLine st toks
 
 def main : IO Unit := MgModel.Driver.main ({} : St) stepAll
